@@ -62,11 +62,35 @@ def run_guarded(ctx, mod, replay):
             sys.stderr.flush()
             os._exit(code)
     budget = float(os.environ.get("VERIF_BUDGET_S", "900" if ctx.tier == "quick" else "5400"))
+    # one input that keeps the implementation busy far longer than any input does on a tree where the property holds
+    # (the model run for it has completed: the generators gate on the model's fuel first) is a failure to return
+    case_budget = float(os.environ.get("VERIF_CASE_BUDGET_S", "120" if ctx.tier == "quick" else "900"))
     t_start = time.time()
+    max_age = 0.0
     while True:
         wp, status = os.waitpid(pid, os.WNOHANG)
         if wp != 0:
             break
+        try:
+            age = time.time() - os.path.getmtime(ctx.case_file)
+        except OSError:
+            age = 0.0
+        max_age = max(max_age, age)
+        if age > case_budget:
+            os.kill(pid, 9)
+            os.waitpid(pid, 0)
+            case = None
+            try:
+                case = json.load(open(ctx.case_file))
+            except Exception:
+                pass
+            import shutil
+            shutil.rmtree(d, ignore_errors=True)
+            ctx.cov["evaluations"] = max(ctx.cov["evaluations"], 1)
+            ctx.violation("hang/no-return", "the implementation did not return within %.0f s on the input in the replay (no input takes a "
+                          "tenth of that where the property holds; the model's run of this input is bounded by its fuel)" % case_budget, {"case": case})
+            ctx.notes.append("exploration stopped after an input exceeded the per-input budget")
+            return
         if time.time() - t_start > budget:
             os.kill(pid, 9)
             os.waitpid(pid, 0)
@@ -100,6 +124,7 @@ def run_guarded(ctx, mod, replay):
             raise Infra(r["infra"])
         for k, v in r.items():
             setattr(ctx, k, v)
+        ctx.notes.append("longest time between two inputs: %.1f s (per-input budget %.0f s)" % (max_age, case_budget))
     finally:
         import shutil
         shutil.rmtree(d, ignore_errors=True)
